@@ -93,37 +93,57 @@ Proof.
   intros H. cbn [infer_e]. rewrite H. split; [reflexivity|]. intros Hn. unfold mul_of. rewrite Hn. reflexivity.
 Qed.
 
-(* powers: refused exactly when the exponent is neither of any dimension nor dimensionless *)
+(* powers: refused exactly when the exponent is neither of any dimension nor dimensionless; a bare quantity in the
+   exponent stands for its value *)
+Definition exp_value (x : sexpr) (xv : val) : val := match x with SQty v _ => v | _ => xv end.
+
 Theorem infer_pow_spec b x xv xd :
   infer_e x = Ok (xv, xd) ->
   (is_any xv = false -> dimensionless xd = false -> infer_e (SPow b x) = Err E_VALUE) /\
   (is_any xv = true \/ dimensionless xd = true ->
-     forall bv bd d, infer_e b = Ok (bv, bd) -> dim_pow_expr bd xv = Some d ->
+     forall bv bd d, infer_e b = Ok (bv, bd) -> dim_pow_expr bd (exp_value x xv) = Some d ->
      exists v, infer_e (SPow b x) = Ok (v, d)).
 Proof.
   intros Hx. cbn [infer_e]. rewrite Hx. split.
   - intros H1 H2. rewrite H1, H2. reflexivity.
-  - intros H bv bd d Hb Hd.
+  - intros H bv bd d Hb Hd. unfold exp_value in Hd.
     assert (Hc : negb (is_any xv) && negb (dimensionless xd) = false).
     { destruct H as [H|H]; rewrite H; cbn; [reflexivity | apply andb_false_r]. }
     rewrite Hc, Hb, Hd. eexists; reflexivity.
+Qed.
+
+Lemma dpow_dimensionless bd q : dimensionless bd = true -> deq bd (dpow bd q).
+Proof.
+  intro E. apply dimensionless_iff in E. unfold dpow.
+  revert E. generalize (length bd). intros n E.
+  revert n E. induction bd as [|a r IH]; intros n E; cbn.
+  - constructor.
+  - destruct n; inversion E; subst. constructor; [rewrite H2; ring | eapply IH; eassumption].
 Qed.
 
 Theorem infer_pow_rational b x bv bd q :
   infer_e x = Ok (VQ q, dzero) -> infer_e b = Ok (bv, bd) ->
   exists v d, infer_e (SPow b x) = Ok (v, d) /\ deq d (dpow bd q).
 Proof.
-  intros Hx Hb. cbn [infer_e]. rewrite Hx.
+  intros Hx Hb.
+  assert (Hnq : (match x with SQty v _ => v | _ => VQ q end) = VQ q).
+  { destruct x; try reflexivity. cbn [infer_e] in Hx. discriminate. }
+  cbn [infer_e]. rewrite Hx.
   assert (Hz : dimensionless dzero = true) by (vm_compute; reflexivity). rewrite Hz. cbn [negb andb].
-  rewrite andb_false_r, Hb. unfold dim_pow_expr.
+  rewrite andb_false_r, Hb, Hnq. unfold dim_pow_expr.
   destruct (dimensionless bd) eqn:E.
-  - eexists; eexists. split; [reflexivity|].
-    (* a dimensionless base stays dimensionless: bd is all zeros, and so is bd^q *)
-    apply dimensionless_iff in E. unfold dpow.
-    revert E. generalize (length bd). intros n E. clear - E.
-    revert n E. induction bd as [|a r IH]; intros n E; cbn.
-    + constructor.
-    + destruct n; inversion E; subst. constructor; [rewrite H2; ring | eapply IH; eassumption].
+  - eexists; eexists. split; [reflexivity|]. apply dpow_dimensionless; exact E.
+  - eexists; eexists. split; [reflexivity | apply deq_refl].
+Qed.
+
+(* ... and the same when the exponent is a bare dimensionless quantity of value q *)
+Theorem infer_pow_quantity b bv bd q xd :
+  dimensionless xd = true -> infer_e b = Ok (bv, bd) ->
+  exists v d, infer_e (SPow b (SQty (VQ q) xd)) = Ok (v, d) /\ deq d (dpow bd q).
+Proof.
+  intros Hd Hb. cbn [infer_e]. rewrite Hd. cbn [negb andb]. rewrite andb_false_r, Hb. unfold dim_pow_expr.
+  destruct (dimensionless bd) eqn:E.
+  - eexists; eexists. split; [reflexivity|]. apply dpow_dimensionless; exact E.
   - eexists; eexists. split; [reflexivity | apply deq_refl].
 Qed.
 
